@@ -2142,8 +2142,25 @@ impl<'a, T> Predecessors<'a, T> {
 #[derive(Clone)]
 pub struct PrecedingSiblings<'a, T>(pub DoubleEndedIter<'a, T>);
 impl<'a, T> PrecedingSiblings<'a, T> {
-    #[verifier::external_body]
-    pub fn new(arena: &'a Arena<T>, node: NodeId) -> Self {
+    pub fn new(arena: &'a Arena<T>, node: NodeId) -> (r: Self)
+        // @props C09 C10 C02
+        requires
+            arena.wf(),
+            arena.live(node),
+        ensures
+            r.0.arena == arena,
+            // @ob C09.PrecedingSiblings_start_at_the_node_and_follow_the_sibling_links C09 C10
+            forall|w: Ranks| #[trigger]
+                ranked(arena.nodes@, w) ==> deq(arena.nodes@, r.0.head, r.0.tail, walk(arena.nodes@, w, node, false), false),
+    {
+        let ghost w0 = choose|w: Ranks| ranked(arena.nodes@, w);
+        let ghost d = walk(arena.nodes@, w0, node, false);
+        proof {
+            lemma_walk(arena.nodes@, w0, node, false);
+            lemma_walk_end(arena.nodes@, w0, node, false);
+            lemma_links_live(arena.nodes@, node.idx());
+            axiom_into_some(node);
+        }
         Self({
             let first = match match match arena.get(node).unwrap().parent {
                 Some(parent_id) => arena.get(parent_id),
@@ -2155,31 +2172,110 @@ impl<'a, T> PrecedingSiblings<'a, T> {
                 Some(__vx_v1) => Some(__vx_v1),
                 None => {
                     let mut first = node;
-                    while let Some(previous) = arena[first].previous_sibling {
+                    let ghost mut k: int = 0;
+                    while let Some(previous) = arena[first].previous_sibling
+                        invariant
+                            0 <= k < d.len(),
+                            d[k] == first,
+                            run_ok(arena.nodes@, d, false),
+                            lnk(arena.nodes@[d[d.len() - 1].idx()], false) is None,
+                        ensures
+                            k == d.len() - 1,
+                        // @ob C02.PrecedingSiblings_far_end_walk_terminates C02
+                        decreases d.len() - k,
+                    {
+                        proof {
+                            assert(tgt_ok(arena.nodes@, Some(d[k])));
+                            if k == d.len() - 1 {
+                                assert(lnk(arena.nodes@[d[k].idx()], false) is None);
+                            }
+                        }
                         first = previous;
+                        proof {
+                            k = k + 1;
+                        }
+                    }
+                    proof {
+                        assert(tgt_ok(arena.nodes@, Some(d[k])));
                     }
                     Some(first)
                 }
             };
+            proof {
+                axiom_into_self(first);
+                assert(first == Some(d[d.len() - 1]));
+                assert forall|w: Ranks| #[trigger] ranked(arena.nodes@, w) implies walk(arena.nodes@, w, node, false) == d by {
+                    lemma_walk_indep(arena.nodes@, w, w0, node, false);
+                }
+            }
             DoubleEndedIter::new(arena, node, first)
         })
     }
 }
 impl<'a, T> PrecedingSiblings<'a, T> {
-    #[verifier::external_body]
-    pub fn next(&mut self) -> Option<NodeId> {
+    pub fn next(&mut self) -> (r: Option<NodeId>)
+        // @props C10 C09 C02
+        requires
+            exists|d: Seq<NodeId>| deq(old(self).0.arena.nodes@, old(self).0.head, old(self).0.tail, d, false),
+        ensures
+            final(self).0.arena == old(self).0.arena,
+            // @ob C10.PrecedingSiblings_front_pull_pops_the_front_of_the_deque C10 C09 C02
+            forall|d: Seq<NodeId>| #[trigger]
+                deq(old(self).0.arena.nodes@, old(self).0.head, old(self).0.tail, d, false) ==> {
+                    &&& r == (if d.len() > 0 {
+                        Some(d[0])
+                    } else {
+                        None
+                    })
+                    &&& deq(
+                        final(self).0.arena.nodes@,
+                        final(self).0.head,
+                        final(self).0.tail,
+                        if d.len() > 0 {
+                            d.drop_first()
+                        } else {
+                            d
+                        },
+                        false,
+                    )
+                },
+    {
         match (self.0.head, self.0.tail) {
             (Some(head), Some(tail)) if head == tail => {
                 let result = head;
                 self.0.head = None;
                 self.0.tail = None;
+                proof {
+                    assert forall|d: Seq<NodeId>| #[trigger]
+                        deq(old(self).0.arena.nodes@, old(self).0.head, old(self).0.tail, d, false) implies d.len() == 1 by {
+                        lemma_deq_pop(old(self).0.arena.nodes@, d, false);
+                    }
+                }
                 Some(result)
             }
             (Some(head), None) | (Some(head), Some(_)) => {
+                proof {
+                    let d0 = choose|d: Seq<NodeId>| deq(self.0.arena.nodes@, self.0.head, self.0.tail, d, false);
+                    assert(tgt_ok(self.0.arena.nodes@, Some(d0[0])));
+                }
                 self.0.head = {
                     let head = &self.0.arena[head];
                     head.previous_sibling
                 };
+                proof {
+                    assert forall|d: Seq<NodeId>| #[trigger]
+                        deq(old(self).0.arena.nodes@, old(self).0.head, old(self).0.tail, d, false) implies d.len() > 1 && deq(
+                        self.0.arena.nodes@,
+                        self.0.head,
+                        self.0.tail,
+                        d.drop_first(),
+                        false,
+                    ) by {
+                        lemma_deq_pop(old(self).0.arena.nodes@, d, false);
+                        assert(d.drop_first()[0] == d[1]);
+                        assert(d.drop_first()[d.len() - 2] == d[d.len() - 1]);
+                    }
+                }
                 Some(head)
             }
             (None, Some(_)) | (None, None) => None,
@@ -2187,20 +2283,69 @@ impl<'a, T> PrecedingSiblings<'a, T> {
     }
 }
 impl<'a, T> PrecedingSiblings<'a, T> {
-    #[verifier::external_body]
-    pub fn next_back(&mut self) -> Option<NodeId> {
+    pub fn next_back(&mut self) -> (r: Option<NodeId>)
+        // @props C10 C02
+        requires
+            exists|d: Seq<NodeId>| deq(old(self).0.arena.nodes@, old(self).0.head, old(self).0.tail, d, false),
+        ensures
+            final(self).0.arena == old(self).0.arena,
+            // @ob C10.PrecedingSiblings_back_pull_pops_the_back_of_the_deque C10 C02
+            forall|d: Seq<NodeId>| #[trigger]
+                deq(old(self).0.arena.nodes@, old(self).0.head, old(self).0.tail, d, false) ==> {
+                    &&& r == (if d.len() > 0 {
+                        Some(d[d.len() - 1])
+                    } else {
+                        None
+                    })
+                    &&& deq(
+                        final(self).0.arena.nodes@,
+                        final(self).0.head,
+                        final(self).0.tail,
+                        if d.len() > 0 {
+                            d.drop_last()
+                        } else {
+                            d
+                        },
+                        false,
+                    )
+                },
+    {
         match (self.0.head, self.0.tail) {
             (Some(head), Some(tail)) if head == tail => {
                 let result = head;
                 self.0.head = None;
                 self.0.tail = None;
+                proof {
+                    assert forall|d: Seq<NodeId>| #[trigger]
+                        deq(old(self).0.arena.nodes@, old(self).0.head, old(self).0.tail, d, false) implies d.len() == 1 by {
+                        lemma_deq_pop(old(self).0.arena.nodes@, d, false);
+                    }
+                }
                 Some(result)
             }
             (None, Some(tail)) | (Some(_), Some(tail)) => {
+                proof {
+                    let d0 = choose|d: Seq<NodeId>| deq(self.0.arena.nodes@, self.0.head, self.0.tail, d, false);
+                    assert(tgt_ok(self.0.arena.nodes@, Some(d0[d0.len() - 1])));
+                }
                 self.0.tail = {
                     let tail = &self.0.arena[tail];
                     tail.next_sibling
                 };
+                proof {
+                    assert forall|d: Seq<NodeId>| #[trigger]
+                        deq(old(self).0.arena.nodes@, old(self).0.head, old(self).0.tail, d, false) implies d.len() > 1 && deq(
+                        self.0.arena.nodes@,
+                        self.0.head,
+                        self.0.tail,
+                        d.drop_last(),
+                        false,
+                    ) by {
+                        lemma_deq_pop(old(self).0.arena.nodes@, d, false);
+                        assert(d.drop_last()[0] == d[0]);
+                        assert(d.drop_last()[d.len() - 2] == d[d.len() - 2]);
+                    }
+                }
                 Some(tail)
             }
             (Some(_), None) | (None, None) => None,
@@ -2210,8 +2355,25 @@ impl<'a, T> PrecedingSiblings<'a, T> {
 #[derive(Clone)]
 pub struct FollowingSiblings<'a, T>(pub DoubleEndedIter<'a, T>);
 impl<'a, T> FollowingSiblings<'a, T> {
-    #[verifier::external_body]
-    pub fn new(arena: &'a Arena<T>, node: NodeId) -> Self {
+    pub fn new(arena: &'a Arena<T>, node: NodeId) -> (r: Self)
+        // @props C09 C10 C02
+        requires
+            arena.wf(),
+            arena.live(node),
+        ensures
+            r.0.arena == arena,
+            // @ob C09.FollowingSiblings_start_at_the_node_and_follow_the_sibling_links C09 C10
+            forall|w: Ranks| #[trigger]
+                ranked(arena.nodes@, w) ==> deq(arena.nodes@, r.0.head, r.0.tail, walk(arena.nodes@, w, node, true), true),
+    {
+        let ghost w0 = choose|w: Ranks| ranked(arena.nodes@, w);
+        let ghost d = walk(arena.nodes@, w0, node, true);
+        proof {
+            lemma_walk(arena.nodes@, w0, node, true);
+            lemma_walk_end(arena.nodes@, w0, node, true);
+            lemma_links_live(arena.nodes@, node.idx());
+            axiom_into_some(node);
+        }
         Self({
             let last = match match match arena.get(node).unwrap().parent {
                 Some(parent_id) => arena.get(parent_id),
@@ -2223,31 +2385,110 @@ impl<'a, T> FollowingSiblings<'a, T> {
                 Some(__vx_v1) => Some(__vx_v1),
                 None => {
                     let mut last = node;
-                    while let Some(next) = arena[last].next_sibling {
+                    let ghost mut k: int = 0;
+                    while let Some(next) = arena[last].next_sibling
+                        invariant
+                            0 <= k < d.len(),
+                            d[k] == last,
+                            run_ok(arena.nodes@, d, true),
+                            lnk(arena.nodes@[d[d.len() - 1].idx()], true) is None,
+                        ensures
+                            k == d.len() - 1,
+                        // @ob C02.FollowingSiblings_far_end_walk_terminates C02
+                        decreases d.len() - k,
+                    {
+                        proof {
+                            assert(tgt_ok(arena.nodes@, Some(d[k])));
+                            if k == d.len() - 1 {
+                                assert(lnk(arena.nodes@[d[k].idx()], true) is None);
+                            }
+                        }
                         last = next;
+                        proof {
+                            k = k + 1;
+                        }
+                    }
+                    proof {
+                        assert(tgt_ok(arena.nodes@, Some(d[k])));
                     }
                     Some(last)
                 }
             };
+            proof {
+                axiom_into_self(last);
+                assert(last == Some(d[d.len() - 1]));
+                assert forall|w: Ranks| #[trigger] ranked(arena.nodes@, w) implies walk(arena.nodes@, w, node, true) == d by {
+                    lemma_walk_indep(arena.nodes@, w, w0, node, true);
+                }
+            }
             DoubleEndedIter::new(arena, node, last)
         })
     }
 }
 impl<'a, T> FollowingSiblings<'a, T> {
-    #[verifier::external_body]
-    pub fn next(&mut self) -> Option<NodeId> {
+    pub fn next(&mut self) -> (r: Option<NodeId>)
+        // @props C10 C09 C02
+        requires
+            exists|d: Seq<NodeId>| deq(old(self).0.arena.nodes@, old(self).0.head, old(self).0.tail, d, true),
+        ensures
+            final(self).0.arena == old(self).0.arena,
+            // @ob C10.FollowingSiblings_front_pull_pops_the_front_of_the_deque C10 C09 C02
+            forall|d: Seq<NodeId>| #[trigger]
+                deq(old(self).0.arena.nodes@, old(self).0.head, old(self).0.tail, d, true) ==> {
+                    &&& r == (if d.len() > 0 {
+                        Some(d[0])
+                    } else {
+                        None
+                    })
+                    &&& deq(
+                        final(self).0.arena.nodes@,
+                        final(self).0.head,
+                        final(self).0.tail,
+                        if d.len() > 0 {
+                            d.drop_first()
+                        } else {
+                            d
+                        },
+                        true,
+                    )
+                },
+    {
         match (self.0.head, self.0.tail) {
             (Some(head), Some(tail)) if head == tail => {
                 let result = head;
                 self.0.head = None;
                 self.0.tail = None;
+                proof {
+                    assert forall|d: Seq<NodeId>| #[trigger]
+                        deq(old(self).0.arena.nodes@, old(self).0.head, old(self).0.tail, d, true) implies d.len() == 1 by {
+                        lemma_deq_pop(old(self).0.arena.nodes@, d, true);
+                    }
+                }
                 Some(result)
             }
             (Some(head), None) | (Some(head), Some(_)) => {
+                proof {
+                    let d0 = choose|d: Seq<NodeId>| deq(self.0.arena.nodes@, self.0.head, self.0.tail, d, true);
+                    assert(tgt_ok(self.0.arena.nodes@, Some(d0[0])));
+                }
                 self.0.head = {
                     let head = &self.0.arena[head];
                     head.next_sibling
                 };
+                proof {
+                    assert forall|d: Seq<NodeId>| #[trigger]
+                        deq(old(self).0.arena.nodes@, old(self).0.head, old(self).0.tail, d, true) implies d.len() > 1 && deq(
+                        self.0.arena.nodes@,
+                        self.0.head,
+                        self.0.tail,
+                        d.drop_first(),
+                        true,
+                    ) by {
+                        lemma_deq_pop(old(self).0.arena.nodes@, d, true);
+                        assert(d.drop_first()[0] == d[1]);
+                        assert(d.drop_first()[d.len() - 2] == d[d.len() - 1]);
+                    }
+                }
                 Some(head)
             }
             (None, Some(_)) | (None, None) => None,
@@ -2255,20 +2496,69 @@ impl<'a, T> FollowingSiblings<'a, T> {
     }
 }
 impl<'a, T> FollowingSiblings<'a, T> {
-    #[verifier::external_body]
-    pub fn next_back(&mut self) -> Option<NodeId> {
+    pub fn next_back(&mut self) -> (r: Option<NodeId>)
+        // @props C10 C02
+        requires
+            exists|d: Seq<NodeId>| deq(old(self).0.arena.nodes@, old(self).0.head, old(self).0.tail, d, true),
+        ensures
+            final(self).0.arena == old(self).0.arena,
+            // @ob C10.FollowingSiblings_back_pull_pops_the_back_of_the_deque C10 C02
+            forall|d: Seq<NodeId>| #[trigger]
+                deq(old(self).0.arena.nodes@, old(self).0.head, old(self).0.tail, d, true) ==> {
+                    &&& r == (if d.len() > 0 {
+                        Some(d[d.len() - 1])
+                    } else {
+                        None
+                    })
+                    &&& deq(
+                        final(self).0.arena.nodes@,
+                        final(self).0.head,
+                        final(self).0.tail,
+                        if d.len() > 0 {
+                            d.drop_last()
+                        } else {
+                            d
+                        },
+                        true,
+                    )
+                },
+    {
         match (self.0.head, self.0.tail) {
             (Some(head), Some(tail)) if head == tail => {
                 let result = head;
                 self.0.head = None;
                 self.0.tail = None;
+                proof {
+                    assert forall|d: Seq<NodeId>| #[trigger]
+                        deq(old(self).0.arena.nodes@, old(self).0.head, old(self).0.tail, d, true) implies d.len() == 1 by {
+                        lemma_deq_pop(old(self).0.arena.nodes@, d, true);
+                    }
+                }
                 Some(result)
             }
             (None, Some(tail)) | (Some(_), Some(tail)) => {
+                proof {
+                    let d0 = choose|d: Seq<NodeId>| deq(self.0.arena.nodes@, self.0.head, self.0.tail, d, true);
+                    assert(tgt_ok(self.0.arena.nodes@, Some(d0[d0.len() - 1])));
+                }
                 self.0.tail = {
                     let tail = &self.0.arena[tail];
                     tail.previous_sibling
                 };
+                proof {
+                    assert forall|d: Seq<NodeId>| #[trigger]
+                        deq(old(self).0.arena.nodes@, old(self).0.head, old(self).0.tail, d, true) implies d.len() > 1 && deq(
+                        self.0.arena.nodes@,
+                        self.0.head,
+                        self.0.tail,
+                        d.drop_last(),
+                        true,
+                    ) by {
+                        lemma_deq_pop(old(self).0.arena.nodes@, d, true);
+                        assert(d.drop_last()[0] == d[0]);
+                        assert(d.drop_last()[d.len() - 2] == d[d.len() - 2]);
+                    }
+                }
                 Some(tail)
             }
             (Some(_), None) | (None, None) => None,
@@ -2278,26 +2568,97 @@ impl<'a, T> FollowingSiblings<'a, T> {
 #[derive(Clone)]
 pub struct Children<'a, T>(pub DoubleEndedIter<'a, T>);
 impl<'a, T> Children<'a, T> {
-    #[verifier::external_body]
-    pub fn new(arena: &'a Arena<T>, node: NodeId) -> Self {
+    pub fn new(arena: &'a Arena<T>, node: NodeId) -> (r: Self)
+        // @props C09 C10
+        requires
+            arena.wf(),
+            arena.has(node),
+        ensures
+            r.0.arena == arena,
+            // @ob C09.children_are_the_child_list_in_order C09 C10
+            forall|w: Ranks| #[trigger]
+                ranked(arena.nodes@, w) ==> deq(arena.nodes@, r.0.head, r.0.tail, children_seq(arena.nodes@, w, node.idx()), true),
+    {
+        proof {
+            axiom_into_self(arena.at(node).first_child);
+            axiom_into_self(arena.at(node).last_child);
+            assert forall|w: Ranks| #[trigger] ranked(arena.nodes@, w) implies deq(
+                arena.nodes@,
+                arena.at(node).first_child,
+                arena.at(node).last_child,
+                children_seq(arena.nodes@, w, node.idx()),
+                true,
+            ) by {
+                lemma_children_deq(arena.nodes@, w, node.idx());
+            }
+        }
         Self({ DoubleEndedIter::new(arena, arena[node].first_child, arena[node].last_child) })
     }
 }
 impl<'a, T> Children<'a, T> {
-    #[verifier::external_body]
-    pub fn next(&mut self) -> Option<NodeId> {
+    pub fn next(&mut self) -> (r: Option<NodeId>)
+        // @props C10 C09 C02
+        requires
+            exists|d: Seq<NodeId>| deq(old(self).0.arena.nodes@, old(self).0.head, old(self).0.tail, d, true),
+        ensures
+            final(self).0.arena == old(self).0.arena,
+            // @ob C10.Children_front_pull_pops_the_front_of_the_deque C10 C09 C02
+            forall|d: Seq<NodeId>| #[trigger]
+                deq(old(self).0.arena.nodes@, old(self).0.head, old(self).0.tail, d, true) ==> {
+                    &&& r == (if d.len() > 0 {
+                        Some(d[0])
+                    } else {
+                        None
+                    })
+                    &&& deq(
+                        final(self).0.arena.nodes@,
+                        final(self).0.head,
+                        final(self).0.tail,
+                        if d.len() > 0 {
+                            d.drop_first()
+                        } else {
+                            d
+                        },
+                        true,
+                    )
+                },
+    {
         match (self.0.head, self.0.tail) {
             (Some(head), Some(tail)) if head == tail => {
                 let result = head;
                 self.0.head = None;
                 self.0.tail = None;
+                proof {
+                    assert forall|d: Seq<NodeId>| #[trigger]
+                        deq(old(self).0.arena.nodes@, old(self).0.head, old(self).0.tail, d, true) implies d.len() == 1 by {
+                        lemma_deq_pop(old(self).0.arena.nodes@, d, true);
+                    }
+                }
                 Some(result)
             }
             (Some(head), None) | (Some(head), Some(_)) => {
+                proof {
+                    let d0 = choose|d: Seq<NodeId>| deq(self.0.arena.nodes@, self.0.head, self.0.tail, d, true);
+                    assert(tgt_ok(self.0.arena.nodes@, Some(d0[0])));
+                }
                 self.0.head = {
                     let node = &self.0.arena[head];
                     node.next_sibling
                 };
+                proof {
+                    assert forall|d: Seq<NodeId>| #[trigger]
+                        deq(old(self).0.arena.nodes@, old(self).0.head, old(self).0.tail, d, true) implies d.len() > 1 && deq(
+                        self.0.arena.nodes@,
+                        self.0.head,
+                        self.0.tail,
+                        d.drop_first(),
+                        true,
+                    ) by {
+                        lemma_deq_pop(old(self).0.arena.nodes@, d, true);
+                        assert(d.drop_first()[0] == d[1]);
+                        assert(d.drop_first()[d.len() - 2] == d[d.len() - 1]);
+                    }
+                }
                 Some(head)
             }
             (None, Some(_)) | (None, None) => None,
@@ -2305,20 +2666,69 @@ impl<'a, T> Children<'a, T> {
     }
 }
 impl<'a, T> Children<'a, T> {
-    #[verifier::external_body]
-    pub fn next_back(&mut self) -> Option<NodeId> {
+    pub fn next_back(&mut self) -> (r: Option<NodeId>)
+        // @props C10 C02
+        requires
+            exists|d: Seq<NodeId>| deq(old(self).0.arena.nodes@, old(self).0.head, old(self).0.tail, d, true),
+        ensures
+            final(self).0.arena == old(self).0.arena,
+            // @ob C10.Children_back_pull_pops_the_back_of_the_deque C10 C02
+            forall|d: Seq<NodeId>| #[trigger]
+                deq(old(self).0.arena.nodes@, old(self).0.head, old(self).0.tail, d, true) ==> {
+                    &&& r == (if d.len() > 0 {
+                        Some(d[d.len() - 1])
+                    } else {
+                        None
+                    })
+                    &&& deq(
+                        final(self).0.arena.nodes@,
+                        final(self).0.head,
+                        final(self).0.tail,
+                        if d.len() > 0 {
+                            d.drop_last()
+                        } else {
+                            d
+                        },
+                        true,
+                    )
+                },
+    {
         match (self.0.head, self.0.tail) {
             (Some(head), Some(tail)) if head == tail => {
                 let result = head;
                 self.0.head = None;
                 self.0.tail = None;
+                proof {
+                    assert forall|d: Seq<NodeId>| #[trigger]
+                        deq(old(self).0.arena.nodes@, old(self).0.head, old(self).0.tail, d, true) implies d.len() == 1 by {
+                        lemma_deq_pop(old(self).0.arena.nodes@, d, true);
+                    }
+                }
                 Some(result)
             }
             (None, Some(tail)) | (Some(_), Some(tail)) => {
+                proof {
+                    let d0 = choose|d: Seq<NodeId>| deq(self.0.arena.nodes@, self.0.head, self.0.tail, d, true);
+                    assert(tgt_ok(self.0.arena.nodes@, Some(d0[d0.len() - 1])));
+                }
                 self.0.tail = {
                     let tail = &self.0.arena[tail];
                     tail.previous_sibling
                 };
+                proof {
+                    assert forall|d: Seq<NodeId>| #[trigger]
+                        deq(old(self).0.arena.nodes@, old(self).0.head, old(self).0.tail, d, true) implies d.len() > 1 && deq(
+                        self.0.arena.nodes@,
+                        self.0.head,
+                        self.0.tail,
+                        d.drop_last(),
+                        true,
+                    ) by {
+                        lemma_deq_pop(old(self).0.arena.nodes@, d, true);
+                        assert(d.drop_last()[0] == d[0]);
+                        assert(d.drop_last()[d.len() - 2] == d[d.len() - 2]);
+                    }
+                }
                 Some(tail)
             }
             (Some(_), None) | (None, None) => None,
